@@ -9,6 +9,12 @@ def run(pid, tier):
         if pid in ("C02", "C11"):
             import dhcp_policy
             return dhcp_policy.check(pid, tier)
+        if pid in ("C03", "C07", "C15"):
+            import dns_rig
+            return dns_rig.check(pid, tier)
+        if pid == "C08":
+            import acl_check
+            return acl_check.check(pid, tier)
         if pid == "C16":
             import dns_ratelimit
             return dns_ratelimit.check(pid, tier)
